@@ -651,7 +651,10 @@ class RecordContextMatcher:
 
                 # Special case for __contains__, where we need to first unwrap all values matching the Type query
                 if comptype in (ast.In, ast.NotIn) and isinstance(left, TypeMatcherInstance):
-                    result = any(comp(v, right) for v in left._values())
+                    # `Type.x in seq`: one of the values is in seq; `not in` is its negation (like Python and the compiled selector)
+                    result = any(AST_COMPARATORS[ast.In](v, right) for v in left._values())
+                    if comptype is ast.NotIn:
+                        result = not result
                 else:
                     result = comp(left, right)
                 if not result:
